@@ -270,7 +270,7 @@ func init() {
 							psz = math.Max(12, sz/float64(r.Range(2, 6)))
 							px, py = bx+r.Uniform(-1.2, 1.2)*sz, by+r.Uniform(-1.2, 1.2)*sz
 						}
-						rings := gen.PolygonWithHoles(r, r.Range(3, 9), math.Round(px), math.Round(py), psz/3, psz, 1, r.Intn(4))
+						rings := gen.MustPolygonWithHoles(r, r.Range(3, 9), math.Round(px), math.Round(py), psz/3, psz, 1, r.Intn(4))
 						var pg orb.Polygon
 						pa := new(big.Rat)
 						for i, rr := range rings {
